@@ -57,8 +57,11 @@ UNIT = dict(
     ('R8', 'Fiber::print_error', dict(pat=r'writeln!\(log, "Traceback \(most recent call last\):"\)\.expect\("[^"]*"\);', rep='', regex=True, count=1)),
     ('R8', 'Fiber::print_error', dict(pat=r'let message = error\[0\]\.to_obj\(\)\.to_str\(\);\s*writeln!\(log, "\{\}: \{\}", &\*error\.class\(\)\.name\(\), &\*message\)\.expect\("[^"]*"\);', rep='', regex=True, count=1)),
     ('R8', 'Fiber::print_error', dict(pat=r'let fun = frame\.fun\(\);\s*let location: String = match &\*fun\.name\(\) \{\s*SCRIPT => SCRIPT\.to_owned\(\),\s*_ => format!\("\{\}\(\)", &\*fun\.name\(\)\),\s*\};', rep='', regex=True, count=1)),
-    ('R8', 'Fiber::print_error', dict(pat=r'let offset = unsafe \{ ([\w.()]+)\.offset_from\(fun\.chunk\(\)\.instructions\(\)\.as_ptr\(\)\) \} as usize;\s*writeln!\(\s*log,\s*"  \{\}:\{\} in \{\}",\s*fun\.module\(\)\.path\(\),\s*fun\.chunk\(\)\.get_line\(offset\.saturating_sub\(1\)\),\s*location\s*\)\s*\.expect\("[^"]*"\);',
-                                       rep=r'log.verif_frame_line(frame, \1);', regex=True, count=1)),
+    # the byte offset of the chosen ip in its function's code, and the line looked up from it: the ARGUMENT of get_line stays real text
+    ('R8', 'Fiber::print_error', dict(pat=r'let offset = unsafe \{ ([\w.()]+)\.offset_from\(fun\.chunk\(\)\.instructions\(\)\.as_ptr\(\)\) \} as usize;',
+                                       rep=r'let verif_ip = \1;\n      let offset = verif_code_offset(frame, verif_ip);', regex=True, count=1)),
+    ('R8', 'Fiber::print_error', dict(pat=r'writeln!\(\s*log,\s*"  \{\}:\{\} in \{\}",\s*fun\.module\(\)\.path\(\),\s*fun\.chunk\(\)\.get_line\(((?:[^()]|\([^()]*\))*)\),\s*location\s*\)\s*\.expect\("[^"]*"\);',
+                                       rep=r'log.verif_frame_line(frame, verif_ip, \1);', regex=True, count=1)),
     # the frame loop: `for frame in frames.iter().rev()` / `for (index, frame) in frames.iter().rev().enumerate()` -> index loop, innermost first
     ('R13', 'Fiber::print_error', dict(pat=r'for \(index, frame\) in self\.frames\.iter\(\)\.rev\(\)\.enumerate\(\) \{', rep='let mut index: usize = 0;\n    while index < self.frames.len() {\n      let frame = &self.frames[self.frames.len() - 1 - index];', regex=True, optional=True)),
     ('R13', 'Fiber::print_error', dict(pat=r'for frame in self\.frames\.iter\(\)\.rev\(\) \{', rep='let mut index: usize = 0;\n    while index < self.frames.len() {\n      let frame = &self.frames[self.frames.len() - 1 - index];', regex=True, optional=True)),
